@@ -10,7 +10,7 @@ use blots_core::values::SerializableValue;
 use proptest::prelude::*;
 use serde::{Deserialize, Serialize};
 
-pub const RULE: &str = "recursive data values (finite doubles over bit patterns and boundaries, strings over all Unicode scalars incl. quotes / backslashes / control characters, keys incl. empty, numeric-looking, needing quotes, composed vs decomposed; depth <= 6; the key __blots_function only with non-string values - numbers, booleans, null, lists, records - which is not the reserved function form): (1) value -> from_value -> to_json -> text -> from_str -> from_json -> to_value in a fresh heap, compared bit-exactly and with .== in one heap; (2) JSON text from the harness's own writer (four number spellings, escaped / raw non-ASCII) -> inputs -> `output x = inputs.x` -> JSON text, read by the harness's own JSON parser (Rust's correctly rounded float parser) and compared as JSON values; (3) a sample of both through the real CLI with -i and with piped stdin, including documents of 64 KiB .. 300 KiB of raw multi-byte characters at every byte alignment; (4) for every value a, the program-built aliased values [a, a] and {p: a, q: [a, {r: a}]} (one heap object reachable several times) serialise to the data they contain. Non-trivial = depth >= 2, or a non-integer number, or a non-ASCII string; distinct by serialised value.";
+pub const RULE: &str = "recursive data values (finite doubles over bit patterns and boundaries, strings over all Unicode scalars incl. quotes / backslashes / control characters, keys incl. empty, numeric-looking, needing quotes, composed vs decomposed; depth <= 6; the key __blots_function only with non-string values - numbers, booleans, null, lists, records - which is not the reserved function form): (1) value -> from_value -> to_json -> text -> from_str -> from_json -> to_value in a fresh heap, compared bit-exactly and with .== in one heap; (2) JSON text from the harness's own writer (four number spellings, escaped / raw non-ASCII) -> inputs -> `output x = inputs.x` -> JSON text, read by the harness's own JSON parser (Rust's correctly rounded float parser) and compared as JSON values; (3) a sample of both through the real CLI with -i and with piped stdin, including documents of 64 KiB .. 300 KiB of raw multi-byte characters at every byte alignment; (4) for every value a, the program-built aliased values [a, a] and {p: a, q: [a, {r: a}]} (one heap object reachable several times) serialise to the data they contain. (5) values nested 7 .. 300 levels deep (lists, records, alternating), built by a program, written by the CLI and piped into `output x = inputs.x`. Non-trivial = depth >= 2, or a non-integer number, or a non-ASCII string; distinct by serialised value.";
 pub const ASSUMPTIONS: &[&str] = &[
     "reference number conversion is Rust's str::parse::<f64> (correctly rounded), independent of serde_json's parser",
     "JSON objects with duplicate keys are not generated (their meaning is unspecified in JSON)",
@@ -21,6 +21,9 @@ pub enum Case {
     Value(MV),
     Doc { value: MV, style: u8 },
     Cli { value: MV, style: u8, stdin: bool },
+    /// a value nested `depth` levels deep (lists, records or alternating), built by a program,
+    /// written by the CLI as output and piped into a second program as input
+    Deep { depth: u16, kind: u8 },
 }
 
 pub struct RoundTrip;
@@ -181,6 +184,49 @@ impl Check for RoundTrip {
                     ),
                 }
             }
+            Case::Deep { depth, kind } => {
+                ctx.label("cli-deep-nesting");
+                ctx.nontrivial(hash_str(&format!("deep{}|{}", depth, kind)));
+                let wrap = ["[a]", "{k: a}", "if i % 2 == 0 then [a] else {k: a}"][*kind as usize % 3];
+                let prog1 = format!("output x = reduce(range({}), (a, i) => {}, 1)", depth, wrap);
+                let lim = Limits::default();
+                let r1 = match run_proc(&ctx.cli_path, &[prog1.clone()], None, None, &lim) {
+                    Ok(r) => r,
+                    Err(e) => fail!("cli:spawn", "cannot run {}: {}", ctx.cli_path, e),
+                };
+                if r1.timed_out {
+                    ctx.note("a CLI run timed out (inconclusive)");
+                    return Ok(());
+                }
+                if r1.code != Some(0) {
+                    fail!("cli:deep:not-written", "`{}` exits with {}: {}", prog1, r1.describe(), r1.stderr);
+                }
+                let written = match json::parse(r1.stdout.trim()) {
+                    Ok(v) => v,
+                    Err(e) => fail!("cli:deep:written-document-invalid", "`{}` printed a document the harness cannot read: {}", prog1, e),
+                };
+                let r2 = match run_proc(&ctx.cli_path, &["output x = inputs.x".into()], Some(r1.stdout.as_bytes()), None, &lim) {
+                    Ok(r) => r,
+                    Err(e) => fail!("cli:spawn", "cannot run {}: {}", ctx.cli_path, e),
+                };
+                if r2.timed_out {
+                    ctx.note("a CLI run timed out (inconclusive)");
+                    return Ok(());
+                }
+                if r2.code != Some(0) {
+                    // the document {"x": ...} has depth + 1 levels
+                    let sig = format!("cli:deep:read-back-rejected:{}", if *depth >= 127 { "document-depth>=128" } else { "document-depth<128" });
+                    let msg = format!("the output of `{}` (a value nested {} deep) piped into `output x = inputs.x` is rejected: {} {}", prog1, depth, r2.describe(), r2.stderr.chars().take(200).collect::<String>());
+                    if ctx.step_over_known("roundtrip", &sig, || (msg.clone(), serde_json::to_value(c).unwrap())) {
+                        return Ok(());
+                    }
+                    fail!(sig, "{}", msg);
+                }
+                match json::parse(r2.stdout.trim()) {
+                    Ok(back) if back.model_eq(&written) => Ok(()),
+                    other => fail!("cli:deep:changed", "a value nested {} deep came back different: {:?}", depth, other.map(|_| "parsed")),
+                }
+            }
             Case::Cli { value, style, stdin } => {
                 ctx.label(if *stdin { "cli-stdin" } else { "cli--i" });
                 if json::write(value, *style).len() > 65536 {
@@ -294,6 +340,12 @@ pub fn run(ctx: &mut Ctx) {
         }
         cases.push(Case::Cli { value: v.clone(), style: 0, stdin: false });
         cases.push(Case::Cli { value: v.clone(), style: 2, stdin: true });
+    }
+    // values nested far deeper than the random generator goes ("at any nesting depth")
+    for depth in [7u16, 30, 64, 100, 120, 125, 126, 127, 128, 150, 300] {
+        for kind in 0..3u8 {
+            cases.push(Case::Deep { depth, kind });
+        }
     }
     ctx.run_enum(&RoundTrip, cases.into_iter(), false);
     // documents larger than any plausible read buffer (64 KiB .. 1 MiB), multi-byte characters at every alignment
